@@ -31,10 +31,10 @@ Proof.
   - f_equal. apply HL. exact Hs.
   - apply andb_true_iff in Hs. destruct Hs as [Hm Hc]. apply negb_true_iff in Hm.
     destruct (lookup s h) as [c|] eqn:L; [|discriminate]. rewrite (Hag _ _ L Hm).
-    destruct c as [it|l]; [|reflexivity]. f_equal. apply HI. exact Hc.
+    destruct c as [fac it|l]; [|reflexivity]. f_equal. apply HI. exact Hc.
   - apply andb_true_iff in Hs. destruct Hs as [Hm Hc]. apply negb_true_iff in Hm.
     destruct (lookup s h) as [c|] eqn:L; [|discriminate]. rewrite (Hag _ _ L Hm).
-    destruct c as [it|l].
+    destruct c as [fac it|l].
     + f_equal. apply HI. exact Hc.
     + f_equal. apply HL. exact Hc.
   - f_equal. apply HL. exact Hs.
@@ -70,7 +70,7 @@ Proof.
   intros s v v' s' H. unfold idict_init in H. destruct v; try discriminate.
   - eapply idict_of_seq_ext; eauto.
   - inversion H; subst. apply Ext_refl.
-  - destruct (lookup s h) as [[it|l]|]; try discriminate.
+  - destruct (lookup s h) as [[fac it|l]|]; try discriminate.
     + unfold alloc in H. inversion H; subst. apply Ext_alloc.
     + eapply idict_of_seq_ext; eauto.
 Qed.
@@ -85,7 +85,7 @@ Proof.
   - destruct (match rt with FromDict => is_rebuild cls fname | Ctor => false end).
     + destruct (freeze f s v) as [[]|]; try discriminate. eapply idict_of_seq_ext; eauto.
     + destruct v; try discriminate; try (inversion H; subst; apply Ext_refl).
-      destruct (lookup s h) as [[it|l]|]; try discriminate. eapply idict_init_ext; eauto.
+      destruct (lookup s h) as [[fac it|l]|]; try discriminate. eapply idict_init_ext; eauto.
   - destruct (tuplify s v); [|discriminate]. destruct (atom_pairs a); [|discriminate].
     inversion H; subst. apply Ext_refl.
   - inversion H; subst. apply Ext_refl.
@@ -105,7 +105,7 @@ Qed.
 Lemma copy_pop_ext : forall f s v k x md s', copy_pop New f s v k = Ok (x, md, s') -> Ext s s'.
 Proof.
   intros f s v k x md s' H. unfold copy_pop in H. destruct v; try discriminate.
-  destruct (lookup s h) as [[it|l]|]; try discriminate.
+  destruct (lookup s h) as [[fac it|l]|]; try discriminate.
   destruct (deepcopy f s (VIDict h)) as [[| | | | | | |m kvs]|]; try discriminate.
   unfold alloc in H. inversion H; subst. apply Ext_alloc.
 Qed.
@@ -123,7 +123,7 @@ Section WithHash.
     destruct (negb (beqb cls (bs "Revision"))); [eapply Triv; exact H|].
     destruct (get_field K_META rows vals) as [[| | | |hm| | |]|]; try (eapply Triv; exact H).
     destruct (get_field K_XH rows vals) as [[| |[|? ?]| | | | |]|]; try (eapply Triv; exact H).
-    destruct (lookup s hm) as [[it|l]|]; try (eapply Triv; exact H).
+    destruct (lookup s hm) as [[fac it|l]|]; try (eapply Triv; exact H).
     destruct (assoc XH_KEY it) as [xh|]; [|eapply Triv; exact H].
     destruct (copy_pop New f s (VIDict hm) XH_KEY) as [[[xh' md] s2]|] eqn:CP; [|discriminate].
     destruct (tuplify s2 xh') as [t|]; [|discriminate].
@@ -143,7 +143,7 @@ Section WithHash.
   Lemma from_dict_ext : forall f cls s d o s', from_dict Hid New f cls s d = Ok (o, s') -> Ext s s'.
   Proof.
     intros f cls s d o s' H. unfold from_dict in H. destruct d; try discriminate.
-    destruct (lookup s h) as [[items|?]|]; try discriminate.
+    destruct (lookup s h) as [[? items|?]|]; try discriminate.
     destruct (class_fields ALL_CLASSES cls) as [rows|]; try discriminate.
     destruct (from_dict_args rows items); [|discriminate]. eapply construct_ext; eauto.
   Qed.
